@@ -138,8 +138,20 @@ func (f *FlagSet) ParseFlags(args, environ, prefixes []string, p *properties.Pro
 				f.set[fl.Name] = true
 				// FABIO_VERSION is a name container images like to use for the
 				// version they ship, not for the -version switch
-				if err := f.Set(fl.Name, val); err != nil && pfx != "" && fl.Name != "version" && invalid == nil {
-					invalid = fmt.Errorf("invalid value %q for %s: %v", val, name, err)
+				if err := f.Set(fl.Name, val); err != nil {
+					if pfx != "" && fl.Name != "version" {
+						if invalid == nil {
+							invalid = fmt.Errorf("invalid value %q for %s: %v", val, name, err)
+						}
+						return
+					}
+					// skipping means the option is as if the variable was not
+					// there: the failed Set has left the zero value behind (no
+					// connection limit, no timeout), put the default back and
+					// go on to the properties file
+					f.Set(fl.Name, fl.DefValue)
+					f.set[fl.Name] = false
+					continue
 				}
 				return
 			}
